@@ -119,7 +119,7 @@ def gen_case(rng, max_m=1000, small=False, weaver=False):
             "on_grid": on_grid, "extras": extras, "alpha": alpha,
             "target_rule": RULES[int(rng.integers(0, 2))], "ref_rule": RULES[int(rng.integers(0, 2))],
             "xcls": xc, "ycls": yc, "m": m, "K": K, "weaver": bool(weaver),
-            "omit_defaults": bool(rng.integers(0, 2))}
+            "omit_defaults": bool(rng.integers(0, 2)), "strategy_with_explicit": bool(rng.integers(0, 2))}
     return case
 
 
@@ -142,6 +142,9 @@ def call_args(case, containers=None):
         kw["fixed_points_in_x"] = [float(case["x"][i]) for i in _order(case)]
     else:
         kw["fixed_points_indices_in_x"] = list(_order(case))
+    if case["mode"] != "search" and case.get("strategy_with_explicit"):
+        # documented: the strategy is only used "if fixed points are not specified" - it must be inert here
+        kw["fixed_points_finding_strategy"] = case["strategy"]
     return kw
 
 
